@@ -113,6 +113,8 @@ theorem secidx_valid (c : Cfg) : ∀ (fuel : Nat) (sec : Cfg) (steps : List (Nat
             | some is =>
               obtain ⟨ii, s⟩ := is
               simp only [hpi] at h
+              split at h
+              · simp at h
               refine ih s (steps ++ [(oi, ii)]) _ _ _ r ?_ h
               rw [cfgAt_append, hsec]
               exact child_of sec oi ii o s (pathOpt_spec sec _ oi o hpo) (pathInst_spec o _ ii s hpi)
@@ -184,6 +186,8 @@ theorem secidx_unresolved_diag : ∀ (fuel : Nat) (sec : Cfg) (steps : List (Nat
             | some is =>
               obtain ⟨ii, s⟩ := is
               simp only []
+              split
+              · simp
               refine ih s (steps ++ [(oi, ii)]) _ _ _ ?_
               have := pathQual_ge o (List.drop (List.takeWhile (fun c => !isSep c) name).length name) (List.takeWhile (fun c => !isSep c) name).length
               have hpos : 0 < (List.takeWhile (fun c => !isSep c) name).length := by
@@ -226,7 +230,9 @@ theorem secidx_resolved_quiet : ∀ (fuel : Nat) (sec : Cfg) (steps : List (Nat 
             | some is =>
               obtain ⟨ii, s⟩ := is
               simp only []
-              exact ih s (steps ++ [(oi, ii)]) _ _ _ r
+              split
+              · simp
+              · exact ih s (steps ++ [(oi, ii)]) _ _ _ r
 
 theorem getoptPath_resolved_quiet (c : Cfg) (name : Bytes) (r : OptRef) (h : (getoptPath c name).ref = some r) : (getoptPath c name).diags = [] := by
   unfold getoptPath getoptSecidx at h ⊢
